@@ -15,8 +15,9 @@ Readings fixed here (each is also listed in the ASSUMPTIONS of the checks):
  * a plain argstr contributes [flag, value], the empty argstr [value].
  * numbers are rendered with str().
  * MultiInputObj fields repeat their argstr per element with or without '...' (tutorial:
-   "for options, this signifies that the flag itself is printed multiple times"); a single
-   non-list value counts as a one-element multi-input.
+   "for options, this signifies that the flag itself is printed multiple times"); the literal
+   reading of the statement (no '...' -> joined with the separator) is accepted as well, see
+   acceptable(); a single non-list value counts as a one-element multi-input.
  * joined with a blank separator = the elements are consecutive arguments; inside a template
    that is left open by the statement -> Undefined.
 
@@ -73,7 +74,9 @@ def elements(f, v) -> list[str] | None:
     return None
 
 
-def render(f: dict, v) -> list[str]:
+def render(f: dict, v, multi_joined=False) -> list[str]:
+    """arguments of one field; `multi_joined` selects the literal reading of the statement for a
+    MultiInputObj field without '...' (joined with the separator like a plain list)"""
     if f.get("argstr") is None or v is None:
         return []
     a, rep = _base_argstr(f)
@@ -84,7 +87,7 @@ def render(f: dict, v) -> list[str]:
     els = elements(f, v)
     if els is None:
         return _one(f, to_str(v), a)
-    if f["type"] == "multi[str]" or rep:
+    if (f["type"] == "multi[str]" and not multi_joined) or rep:
         out = []
         for e in els:
             out += _one(f, e, a)
@@ -112,7 +115,32 @@ def argv(spec: dict, rv: dict, append_args=None) -> list[str]:
     return out + list(append_args or [])
 
 
-def value_args(spec: dict, rv: dict) -> list[tuple[str, str, list[str]]]:
+def two_readings(f, v) -> bool:
+    """MultiInputObj with several elements and no '...': the statement says 'joined', the tutorial
+    'the flag itself is printed multiple times' -> both renderings are accepted"""
+    return (f["type"] == "multi[str]" and f.get("argstr") is not None
+            and not f["argstr"].endswith("...") and isinstance(v, list) and len(v) > 1)
+
+
+def acceptable(spec: dict, rv: dict, append_args=None) -> list[list[str]]:
+    """all argument vectors the statement and the documentation allow; the first one is argv()"""
+    open_fields = [f["name"] for f in spec["fields"] if two_readings(f, rv[f["name"]])]
+    out = []
+    for choice in itertools.product((False, True), repeat=len(open_fields)):
+        joined = {n for n, c in zip(open_fields, choice) if c}
+        vec = executable(spec)
+        try:
+            for f in ordered(spec["fields"]):
+                vec += render(f, rv[f["name"]], multi_joined=f["name"] in joined)
+        except Undefined:
+            if not joined:
+                raise
+            continue
+        out.append(vec + list(append_args or []))
+    return out
+
+
+def value_args(spec: dict, rv: dict, multi_joined=False) -> list[tuple[str, str, list[str]]]:
     """(field name, reference argument, acceptable spellings) for every reference argument that
     carries a str/path element of a field: what C23 requires to be present in the executed argv.
     The acceptable spellings add the element followed by the separator for '...' lists (C22's
@@ -122,8 +150,9 @@ def value_args(spec: dict, rv: dict) -> list[tuple[str, str, list[str]]]:
         v = rv[f["name"]]
         if f["type"] not in ("str", "file", "list[str]", "multi[str]"):
             continue
+        joined_reading = multi_joined and two_readings(f, v)
         try:
-            args = render(f, v)
+            args = render(f, v, multi_joined=joined_reading)
         except Undefined:
             continue
         if not args:
@@ -137,6 +166,8 @@ def value_args(spec: dict, rv: dict) -> list[tuple[str, str, list[str]]]:
         sep = f.get("sep") or " "
         els = elements(f, v)
         carries = els if els is not None else [to_str(v)]
+        if joined_reading:
+            carries, els = [sep.join(els)], None
         for arg in args:
             if arg in flag_pieces and arg not in carries:
                 continue
